@@ -801,11 +801,36 @@ def _hoist_statement_helper(model, caller, st, inventory):
     return [asg, st]
 
 
+def _split_and_test(model, caller, st, inventory) -> bool:
+    """`if A and [not] H(..): body` (no else) with H a new helper that needs statements -> `if A: if [not] H(..): body`, in place: the same
+    evaluation (H runs only when A holds), and the inner test has the call in the slot the statement-level inliner can take."""
+    if not isinstance(st, ast.If) or st.orelse or not isinstance(st.test, ast.BoolOp) or not isinstance(st.test.op, ast.And) or len(st.test.values) < 2:
+        return False
+    last = st.test.values[-1]
+    core = last.operand if isinstance(last, ast.UnaryOp) and isinstance(last.op, ast.Not) else last
+    if not isinstance(core, ast.Call):
+        return False
+    t = _resolve_for_inline(model, caller, core)
+    if t.kind != "func" or not _is_new(t.target, inventory) or t.target is caller or not _inlinable(model, t.target, caller):
+        return False
+    expr = _as_expression(_strip_doc(list(t.target.node.body)))
+    if expr is not None and (not isinstance(expr, ast.IfExp) or _bool_chain(expr)):
+        return False  # the expression inliner handles it in place
+    rest = st.test.values[:-1]
+    inner = ast.copy_location(ast.If(test=last, body=st.body, orelse=[]), st)
+    st.test = rest[0] if len(rest) == 1 else ast.copy_location(ast.BoolOp(op=ast.And(), values=rest), st.test)
+    st.body = [inner]
+    ast.fix_missing_locations(st)
+    return True
+
+
 def _process_block(model, caller, stmts: list, inventory) -> tuple:
     out, changed = [], False
     work = list(stmts)
     while work:
         st = work.pop(0)
+        if _split_and_test(model, caller, st, inventory):
+            changed = True
         hoisted = _hoist_statement_helper(model, caller, st, inventory)
         if hoisted is not None:
             work[0:0] = hoisted
@@ -2483,6 +2508,27 @@ def desugar_partials_and_extends(model) -> bool:
                     captured = {y.id for a in list(n.value.args) + [k.value for k in n.value.keywords] for y in ast.walk(a) if isinstance(y, ast.Name)}
                     if ok and not any(stores.get(c, 0) > 1 for c in captured):
                         partials[name] = n
+                    elif not ok and not any(stores.get(c, 0) > 1 for c in captured) and isinstance(n.value.args[0], ast.Name) and not n.value.keywords:
+                        # the partial is also handed on as a value (`is_leaf=g`): when it binds the leading positional parameters of a *new*
+                        # module-level function of the package, write it as the lambda it stands for (the helper is inlined into it later)
+                        b_ = model.resolve_name(f, n.value.args[0].id)
+                        tgt = b_.target if b_.kind == "func" else None
+                        try:
+                            from .inventory import FUNCTIONS as _FN
+                        except ImportError:
+                            _FN = ()
+                        if tgt is not None and tgt.qualname not in _FN and tgt.cls is None and not isinstance(tgt.parent, FuncInfo) and isinstance(tgt.node, ast.FunctionDef):
+                            a_ = tgt.node.args
+                            nb = len(n.value.args) - 1
+                            if not a_.vararg and not a_.kwarg and not a_.kwonlyargs and not a_.posonlyargs and not a_.defaults and nb < len(a_.args):
+                                rest = [x.arg for x in a_.args[nb:]]
+                                if not (set(rest) & captured):
+                                    lam = ast.Lambda(args=ast.arguments(posonlyargs=[], args=[ast.arg(arg=r_) for r_ in rest], kwonlyargs=[], kw_defaults=[], defaults=[]),
+                                                     body=ast.Call(func=copy.deepcopy(n.value.args[0]), args=[copy.deepcopy(x) for x in n.value.args[1:]] + [ast.Name(id=r_, ctx=ast.Load()) for r_ in rest],
+                                                                   keywords=[]))
+                                    n.value = ast.copy_location(lam, n.value)
+                                    ast.fix_missing_locations(n)
+                                    changed = True
         if partials:
             class Tr(ast.NodeTransformer):
                 def visit_Call(self, c):
